@@ -10,10 +10,10 @@ for sid in sys.argv[1:]:
     notes = open(os.path.join(d, "notes.md"), encoding="utf-8").read() if os.path.exists(os.path.join(d, "notes.md")) else ""
     ok = bool(cf["applies"]) and cf["demo_exit_without_change"] == 0 and cf["demo_exit_with_change"] != 0 \
         and "254 passed" in cf["test_suite_with_change"]
-    rnd = 2 if sid.endswith(("-3", "-4")) else 1
+    rnd = 6 if sid.endswith(("-11", "-12")) else 2 if sid.endswith(("-3", "-4")) else 1
     meta = {"id": sid, "property": sid.split("-")[0], "round": rnd,
             "origin": "independent sub-agent (%s round, on the %s tree) given only the property text and a scratch worktree of /repo"
-                      % ("second" if rnd == 2 else "first", "repaired" if rnd == 2 else "pre-fix"),
+                      % ({1: "first", 2: "second", 6: "sixth"}[rnd], "pre-fix" if rnd == 1 else "repaired"),
             "patch": cf["patch"], "status": "effective" if ok else "neutralised",
             "needs_to_manifest": re.sub(r"\s+", " ", notes)[:600],
             "confirmed": {"by": "tools_confirm_seed.sh on a scratch worktree of /repo HEAD %s" % cf["repo_head"],
